@@ -23,6 +23,7 @@ func init() {
 		Trusted:   "go/types+go/ssa; sync.Mutex and sync/atomic semantics; Go memory model for channel close",
 		Run:       runC12,
 		Imports: []Import{
+			{From: "C06.b", Match: "reset-after-success", As: "C12.f", Why: "a header whose height is published stays readable: it leaves the pending batch only after the flush that wrote it to the datastore returned nil (a batch released on a failed commit is in neither place while the commit is retried)"},
 			{From: "C04.c", Match: "advance-publishes", As: "C12.e", Why: "a reader that parked just before the head moved is woken by the publication of the new height (SetHeight walks the heights in between and releases their waiters); bumping the height without that walk leaves it parked although Height() has reached its height"},
 		},
 	})
@@ -31,6 +32,7 @@ func init() {
 func runC12(c *an.Ctx) {
 	p := c.P
 	checkWaiterCounted(c, "C12.b")
+	checkSubscriptionTableStable(c, "C12.b")
 	gbh := p.Method("store", "Store", "GetByHeight")
 	lookup := p.Method("store", "Store", "getByHeight")
 	wait := p.Method("store", "heightSub", "Wait")
